@@ -134,6 +134,19 @@ VARIANTS = {
         return (CardRank::BLANK, CardSuit::BLANK);
     };
     let rank = CardRank::from_char(r);""")], ["C12"]),
+    # an inherent method that only forwards to the trait method it shadows
+    "inherent_forwarder": ([sub("src/cards/five.rs", "    pub fn set_third(&mut self, card_number: CKCNumber) {", """    #[must_use]
+    pub fn hand_rank_value(&self) -> crate::hand_rank::HandRankValue {
+        <Five as crate::cards::HandRanker>::hand_rank_value(self)
+    }
+
+    pub fn set_third(&mut self, card_number: CKCNumber) {""")], ["C01", "C05", "C06"]),
+    # uniqueness by looking for each card among the later ones (on a clone of the iterator)
+    "unique_by_any_on_clone": ([sub("src/cards/seven.rs", "        let sorted = self.sort();\n        let mut last: CKCNumber = u32::MAX;\n        for c in sorted.iter() {\n            if *c >= last {\n                return false;\n            }\n            last = *c;\n        }\n        true", "        let mut rest = self.iter();\n        while let Some(card) = rest.next() {\n            if rest.clone().any(|c| c == card) {\n                return false;\n            }\n        }\n        true")], ["C04", "C05"]),
+    # assertions that hold on every input
+    "true_assertions": ([sub("src/lib.rs", "    fn get_rank_prime(&self) -> u32 {\n        self.as_u32()", "    fn get_rank_prime(&self) -> u32 {\n        debug_assert!(CardNumber::RANK_PRIME_FILTER == 0b00111111);\n        self.as_u32()"),
+                         sub("src/deck.rs", "        if index < Deck::len() {\n            POKER_DECK.0[index]", "        if index < Deck::len() {\n            debug_assert!(index < 52);\n            POKER_DECK.0[index]"),
+                         sub("src/hand_rank.rs", "    fn cmp(&self, other: &HandRank) -> Ordering {\n", "    fn cmp(&self, other: &HandRank) -> Ordering {\n        debug_assert!(self.value == self.value);\n")], ["C10", "C18", "C07", "C01"]),
 }
 
 
